@@ -11,8 +11,14 @@ Comp(n) == IF n = 0 THEN {<<>>} ELSE UNION {{<<x>> \o cc : cc \in Comp(n - x)} :
 SeqsUpTo(S, lo, hi) == UNION {[1..n -> S] : n \in lo..hi}
 Perms(n) == {f \in [1..n -> 1..n] : \A x, y \in 1..n : f[x] = f[y] => x = y}
 
-FileRec(fmt, kind, toks, lines, circ, own, nl) ==
-  [fam |-> "file", fmt |-> fmt, kind |-> kind, toks |-> toks, lines |-> lines, circ |-> circ, terOwn |-> own, nl |-> nl]
+FileRecT(fmt, kind, toks, lines, circ, own, nl, title) ==
+  [fam |-> "file", fmt |-> fmt, kind |-> kind, toks |-> toks, lines |-> lines, circ |-> circ, terOwn |-> own, nl |-> nl, title |-> title]
+FileRec(fmt, kind, toks, lines, circ, own, nl) == FileRecT(fmt, kind, toks, lines, circ, own, nl, <<>>)
+\* the title line of an .ig file is mandatory and arbitrary (it must not end in 1 or 2, which would be the terminator): the
+\* title alphabet includes titles spelled with the letters A, C, G, T only; the title never influences the graph
+PlainTitle == <<"t", "i", "t", "l", "e">>
+Titles == {PlainTitle, <<"s", "e", "q", "A">>, <<"C", "A", "T">>, <<"T", "A", "T", "A">>, <<"G">>}
+TitlesFor(sl, t) == IF Len(t) <= 2 \/ (Len(t) = 3 /\ sl.kind = "RNA") THEN Titles ELSE {PlainTitle}
 DNAS == {"A", "C", "G", "T"}
 AAS == << {"G", "A", "V", "C"}, {"P", "L", "I", "M"}, {"W", "F", "S", "T"}, {"Y", "N", "Q", "K"}, {"R", "H", "D", "E"}, {"O", "Q", "E", "G"} >>
 \* alphabet slices: every letter of every alphabet occurs in some slice; all sequences up to L over each slice
@@ -25,11 +31,13 @@ PickFasta(Lm, Lo) ==
 \* .ig: linear / circular terminator (circular from 3 residues), terminator on the last sequence line or on a line of its own
 PickIg(Lm, Lo) ==
   \E sl \in Slices(Lm, Lo) : \E t \in SeqsUpTo(sl.S, 1, sl.L) :
-    \E l \in Comp(Len(t)), cr \in (IF Len(t) >= 3 THEN BOOLEAN ELSE {FALSE}), own \in (IF sl.kind = "DNA" /\ Len(t) <= 3 THEN BOOLEAN ELSE {FALSE}) :
-      inp = FileRec("ig", sl.kind, t, l, cr, own, TRUE)
+    \E l \in Comp(Len(t)), cr \in (IF Len(t) >= 3 THEN BOOLEAN ELSE {FALSE}), own \in (IF sl.kind = "DNA" /\ Len(t) <= 3 THEN BOOLEAN ELSE {FALSE}),
+       ti \in TitlesFor(sl, t) :
+      inp = FileRecT("ig", sl.kind, t, l, cr, own, TRUE, ti)
 \* one protein slice only (sensitivity runs)
-PickIgOne == \E t \in SeqsUpTo(AAS[4], 1, 3) : \E l \in Comp(Len(t)), cr \in (IF Len(t) >= 3 THEN BOOLEAN ELSE {FALSE}) :
-               inp = FileRec("ig", "PROTEIN", t, l, cr, FALSE, TRUE)
+PickIgOne == \E t \in SeqsUpTo(AAS[4], 1, 3) : \E l \in Comp(Len(t)), cr \in (IF Len(t) >= 3 THEN BOOLEAN ELSE {FALSE}),
+                                                    ti \in (IF Len(t) = 1 THEN Titles ELSE {PlainTitle}) :
+               inp = FileRecT("ig", "PROTEIN", t, l, cr, FALSE, TRUE, ti)
 TxtNames == {"PEO", "A", "N1"}
 PickTxt(L) == \E t \in SeqsUpTo(TxtNames, 1, L) : \E l \in Comp(Len(t)), nl \in BOOLEAN : inp = FileRec("txt", "NAMES", t, l, FALSE, FALSE, nl)
 PickSeqList(L, C) == \E b \in SeqsUpTo([name : {"PEO", "A"}, cnt : 1..C], 1, L) : inp = [fam |-> "seqlist", blocks |-> b]
@@ -39,7 +47,10 @@ PickJson(N) == \E n \in 1..N : \E nm \in [1..n -> {"PEO", "A"}], o \in Perms(n),
 
 (* ---- gen_seq *)
 Shapes == {[lev |-> l, br |-> b] : l \in 1..3, b \in 1..3}
-D(sh, res) == [lev |-> sh.lev, br |-> sh.br, res |-> res]
+D(sh, res) == [kind |-> "str", lev |-> sh.lev, br |-> sh.br, res |-> res]
+\* a macro read from an itp file: residue names, the residue numbers of the file (not starting at 1 / with gaps), bonded positions
+FileDef(resids, bonds) == [kind |-> "file", names |-> <<"GLY", "ALA", "SER">>, resids |-> resids, bonds |-> bonds]
+FileDefs == {FileDef(r, b) : r \in {<<1, 2, 3>>, <<5, 6, 7>>, <<2, 4, 9>>}, b \in {<< <<1, 2>>, <<2, 3>> >>, << <<1, 2>>, <<1, 3>> >>}}
 GenRec(defs, seq, cn, en, lb) == [fam |-> "genseq", defs |-> defs, seq |-> seq, connects |-> cn, ends |-> en, labels |-> lb]
 Con(i, j, pairs) == [i |-> i, j |-> j, pairs |-> pairs]
 End(i, nm) == [i |-> i, name |-> nm]
@@ -61,8 +72,12 @@ PickGen2 ==
 PickGen2s ==
   \E cn \in { <<Con(0, 1, << <<a, b>> >>)>> : a \in {0, 2}, b \in {0, 2} } \cup { <<Con(1, 0, << <<2, 0>> >>)>> }, en \in {<<>>, <<End(1, "END")>>} :
       inp = GenRec([A |-> D([lev |-> 2, br |-> 2], "PA"), B |-> D([lev |-> 3, br |-> 1], "PB")], <<"A", "B">>, cn, en, <<>>)
+PickGenFs ==
+  \E cn \in {<<>>, <<Con(0, 1, << <<2, 1>> >>)>>, <<Con(1, 1, << <<0, 2>> >>)>>} :
+      inp = GenRec([A |-> D([lev |-> 2, br |-> 2], "PA"), F |-> [kind |-> "file", names |-> <<"GLY", "ALA", "SER">>, resids |-> <<2, 4, 9>>,
+                                                                 bonds |-> << <<1, 2>>, <<2, 3>> >>]], <<"A", "F">>, cn, <<>>, <<>>)
 \* up to three instances of two definitions, up to two connect records, terminal renamings, labels
-SizeOf(defs, seq, x) == TreeSize(defs[seq[x + 1]])
+SizeOf(defs, seq, x) == MacroSize(defs[seq[x + 1]])
 Cands(defs, seq) ==
   LET m == Len(seq) IN
   (UNION { UNION { { Con(x, y, << <<a, b>> >>) : a \in {0, SizeOf(defs, seq, x) - 1}, b \in {0, SizeOf(defs, seq, y) - 1} }
@@ -79,6 +94,15 @@ PickGen3For(defs) ==
          /\ CKey(x) < CKey(y)          \* unordered pairs of connect records
          /\ \E el \in { <<(<<>>), (<<>>)>>, <<(<<End(0, "END"), End(m - 1, "CAP")>>), (<<Lab(m - 1, "chiral", "R")>>)>> } :
               inp = GenRec(defs, sq, <<x, y>>, el[1], el[2])
+\* -from_file: up to three instances of a string macro A and a file macro F (F at least once, also second / twice), <= 1 connect
+PickGenF ==
+  \E fd \in FileDefs : \E sq \in {q \in SeqsUpTo({"A", "F"}, 1, 3) : \E x \in 1..Len(q) : q[x] = "F"} :
+    LET defs == [A |-> D([lev |-> 2, br |-> 2], "PA"), F |-> fd]
+        cs == Cands(defs, sq)
+        m == Len(sq)
+    IN \E cn \in {<<>>} \cup {<<x>> : x \in cs},
+          el \in { <<(<<>>), (<<>>)>>, <<(<<End(m - 1, "END")>>), (<<Lab(m - 1, "chiral", "R")>>)>> } :
+         inp = GenRec(defs, sq, cn, el[1], el[2])
 Sh(l, b) == [lev |-> l, br |-> b]
 DefsB == << [A |-> D(Sh(2, 2), "PA"), B |-> D(Sh(3, 1), "PB")],
             [A |-> D(Sh(3, 2), "PA"), B |-> D(Sh(1, 1), "PB")],
@@ -105,11 +129,11 @@ PickDsBad(L) ==
 MCPick == CASE Fam = "fasta" -> PickFasta(P1, P2)
             [] Fam = "ig"    -> PickIg(P1, P2)
             [] Fam = "plain" -> (PickTxt(P1) \/ PickSeqList(3, 3) \/ PickJson(3))
-            [] Fam = "gen"   -> (PickGen1 \/ PickGen2 \/ PickGen3(P1))
+            [] Fam = "gen"   -> (PickGen1 \/ PickGen2 \/ PickGen3(P1) \/ PickGenF)
             [] Fam = "ds"    -> (PickDsAll(P1, P2) \/ PickDsBad(3))
             \* small instances of the sensitivity runs (one per deviation flag)
             [] Fam = "sensfile" -> (PickFasta(1, 2) \/ PickIgOne \/ PickTxt(2))
-            [] Fam = "sensgen"  -> (PickGen1 \/ PickGen2s)
+            [] Fam = "sensgen"  -> (PickGen1 \/ PickGen2s \/ PickGenFs)
             [] Fam = "sensds"   -> PickDsAll(3, 3)
 Init == MCPick /\ InitRest
 Spec == Init /\ [][Next]_vars
